@@ -9,7 +9,7 @@ from .contracts import Contract, lookup, lookup_by_method
 from .exec import BUILTIN_EXC, ExecBase, MUTATORS, NOOP_ROOTS, Obligation, Outcome
 from .state import (BoundMethod, Builtin, CallRec, Cell, ClassRef, Exc, ExtRef, FuncRef, Lam, MergeFail, ModuleRef,
                     OutOfSubset, PyConst, Ref, State, Tup, merge_states)
-from .sym import (ABSENT, Any, BoolS, DictS, EMPTY_DICT, EMPTY_LIST, EMPTY_SET, IntS, ListS, NONE, SetS, StrS, Val, VBool,
+from .sym import (ABSENT, Any, BoolS, DictS, EMPTY_DICT, EMPTY_ISET, EMPTY_LIST, EMPTY_SET, ISetS, IntS, ListS, NONE, SetS, StrS, Val, VBool,
                   VInt, VNone, VStr, acc, const_to_val, ctor, fresh, from_any, ite_val, py_eq, recog, truthy)
 
 WS = " \t\n\r\x0b\x0c"
@@ -457,6 +457,8 @@ class CallsMixin(ExecBase):
             cs[key] = sum(1 for k_ in cs if k_[0] == qual)
         site = f"{getattr(self, 'fn_site', self.fn_qual)}->{qual.split(':')[-1]}#{cs[key]}"
         for cl in c.requires_:
+            if any(p_ not in bound for p_ in cl.params):
+                continue
             if getattr(cl, "typing", False):
                 self.assumptions.add(f"call of {qual}: parameter annotations trusted ({cl.name})")
                 continue
@@ -513,6 +515,8 @@ class CallsMixin(ExecBase):
                 rs.assume(self.eval_clause(cl, bound, rs, pre, {"exc": ex}))
             self.pending.append(Outcome("raise", rs, ex, node))
             self.assume(st, z3.Not(flag))
+        st.log.append(CallRec(qual.split(":")[-1].split(".")[-1], [self.as_val(v, st, node) if not isinstance(v, tuple) else v[1] for k, v in bound.items() if k not in ("self", "cls")],
+                              {}, self.as_val(res, st, node) if not isinstance(res, Ref) or st.cell(res).kind != "obj" else Val("o", z3.IntVal(res.id)), node))
         extra = {"result": res}
         if c.opts.get("generator"):
             extra["yielded"] = res
@@ -522,6 +526,8 @@ class CallsMixin(ExecBase):
                 if gv is not None:
                     extra[gname] = gv
         for cl in c.ensures_:
+            if any(p_ not in bound and p_ not in extra and p_ != "old" for p_ in cl.params):
+                continue  # clause about internals of the callee (region contracts): not visible at call sites
             self.assume(st, self.eval_clause(cl, dict(bound, **{k: v for k, v in extra.items() if k not in ("result", "yielded")}), st, pre, extra))
         return res
 
@@ -573,7 +579,8 @@ class CallsMixin(ExecBase):
                     c.fields[f] = Val("any", fresh(f"havoc_{f}", Any))
             return
         tag = c.val.tag
-        c.val = Val(tag, fresh("havoc", {"d": DictS, "l": ListS, "st": SetS}[tag]))
+        from .sym import PAYLOAD_SORT
+        c.val = Val(tag, fresh("havoc", PAYLOAD_SORT[tag]))
 
     def eval_clause(self, cl, bound, st: State, pre: State | None, extra: dict):
         """Evaluate a contract clause (its own Python text) to a Bool term over the given bindings."""
@@ -789,6 +796,25 @@ class CallsMixin(ExecBase):
                 return Val("l", z3.Concat(z3.Extract(l, z3.IntVal(0), i), z3.Extract(l, i + 1, n - i - 1))), from_any(l[i])
             if name == "clear":
                 return Val("l", EMPTY_LIST), VNone
+        if kind == "set" and (v.tag == "sti" or (v.tag == "st" and v.e.eq(EMPTY_SET) and args and self._int_elems(args[0], st, node))):
+            s = v.e if v.tag == "sti" else EMPTY_ISET
+            if name == "add":
+                k = self.need_int(self.as_val(args[0], st, node), st, node)
+                return Val("sti", z3.Store(s, k, z3.BoolVal(True))), VNone
+            if name == "update":
+                o = self.as_val(args[0], st, node)
+                kk = z3.Const("k!siu", IntS)
+                if o.tag == "sti":
+                    return Val("sti", z3.SetUnion(s, o.e)), VNone
+                l_ = self.need(o, "l", st, node)
+                # new = old ∪ ints(l) with ints(.) the uninterpreted "set of the ints of a list" (built-in set algebra, no quantifiers)
+                return Val("sti", z3.SetUnion(s, z3.Function("py.iset_of_list", ListS, ISetS)(l_))), VNone
+            if name == "discard":
+                k = self.need_int(self.as_val(args[0], st, node), st, node)
+                return Val("sti", z3.Store(s, k, z3.BoolVal(False))), VNone
+            if name == "clear":
+                return Val("sti", EMPTY_ISET), VNone
+            self.oos(f"int-set mutator {name}", node)
         if kind == "set":
             s = v.e
             if name == "add":
@@ -808,6 +834,14 @@ class CallsMixin(ExecBase):
             if name == "clear":
                 return Val("st", EMPTY_SET), VNone
         self.oos(f"mutator {kind}.{name}", node)
+
+    def _int_elems(self, a, st, node):
+        """does this argument (an element, or a list for update) carry ints?  (decides the representation of a fresh set)"""
+        v = self.as_val(a, st, node)
+        if v.tag == "i" or v.tag == "sti":
+            return True
+        hints = self.opts.get("int_lists", ())
+        return v.tag == "l" and any(h in v.e.sexpr()[:400] for h in hints)
 
     def value_method(self, v: Val, name, args, kwargs, st, node):
         t = v.tag
@@ -1062,6 +1096,8 @@ class CallsMixin(ExecBase):
         st.assume(z3.ForAll([i], z3.Implies(z3.And(i >= 0, i < n), z3.And(recog("s")(ks[i]), z3.Select(d.e, acc("s")(ks[i])) != ABSENT))))
         st.assume(z3.ForAll([k], z3.Implies(z3.Select(d.e, k) != ABSENT, z3.Contains(ks, z3.Unit(ctor("s")(k))))))
         st.assume(z3.ForAll([i, j], z3.Implies(z3.And(i >= 0, i < j, j < n), ks[i] != ks[j])))
+        idx = z3.IndexOf(ks, z3.Unit(ctor("s")(k)), 0)
+        st.assume(z3.ForAll([k], z3.Implies(z3.Select(d.e, k) != ABSENT, z3.And(0 <= idx, idx < n, ks[idx] == ctor("s")(k)))))
         return ks
 
     def set_seq(self, s: Val, st, ordered=False):
@@ -1109,6 +1145,16 @@ class CallsMixin(ExecBase):
         if isinstance(a, tuple) and a and a[0] == "dictview" and a[1] == "keys":
             a = self.b_set([a[2]], {}, st, node)
         v = self.as_val(a, st, node)
+        if v.tag == "sti":
+            f = z3.Function("py.sorted_iset", ISetS, ListS)
+            ks = f(v.e)
+            i, j, k = z3.Const("i!si", IntS), z3.Const("j!si", IntS), z3.Const("k!si", IntS)
+            n = z3.Length(ks)
+            st.assume(z3.ForAll([i], z3.Implies(z3.And(i >= 0, i < n), z3.And(recog("i")(ks[i]), z3.Select(v.e, acc("i")(ks[i]))))))
+            st.assume(z3.ForAll([k], z3.Implies(z3.Select(v.e, k), z3.Contains(ks, z3.Unit(ctor("i")(k))))))
+            st.assume(z3.ForAll([i, j], z3.Implies(z3.And(i >= 0, i < j, j < n), acc("i")(ks[i]) < acc("i")(ks[j]))))
+            st.assume(z3.Function("py.iset_of_list", ListS, ISetS)(ks) == v.e)
+            return self.mk_list(st, Val("l", ks))
         if v.tag == "st":
             return self.mk_list(st, Val("l", self.set_seq(v, st, ordered=True)))
         if v.tag == "d":
